@@ -11,7 +11,7 @@
    Independence.trash_each_runs), and the exit status is 0 exactly when every one of them reported success.
    Independence of OUTCOMES on the file system (an argument's result equals its result when run alone - the answers of
    the file system may depend on what earlier arguments did) is decided by the check's oracle. *)
-From TV Require Import Prelude.Str Logic.OrigLoc Prog.Prog Cmd.Put Proofs.ProgProofs Proofs.PutSafe Proofs.PutProofs Proofs.Independence.
+From TV Require Import Prelude.Str Logic.OrigLoc Prog.Prog Cmd.Put Proofs.ProgProofs Proofs.PutSafe Proofs.PutProofs Proofs.Independence Proofs.FailedPut.
 Open Scope N_scope.
 
 Theorem exit_status_iff_no_failure_reported : forall o,
@@ -33,6 +33,17 @@ Theorem put_arguments_are_independent : forall o,
       end) (put_main o).
 Proof. exact put_arguments_are_independent_lemma. Qed.
 Print Assumptions put_arguments_are_independent.
+
+(* what "success" of one argument means (and by the decomposition above, of every argument of a run that exits 0): a move returned
+   normally for it, or it was excused - it does not exist and -f was given, or the user was asked about it.  With C17's
+   failed_argument_was_not_moved this is the truth of the exit status in both directions, argument by argument. *)
+Theorem successful_argument_was_moved_or_excused : forall path o,
+  all_runs (fun t out => out = Done true ->
+      (exists src dst, In (Move src dst, RUnit) t) \/
+      (po_mode o = ModeForce /\ exists q, In (Lexists q, RBool false) t) \/
+      (po_mode o = ModeInteractive /\ exists p r, In (Input p, r) t)) (trash_single path o).
+Proof. exact successful_argument_was_moved_or_excused_lemma. Qed.
+Print Assumptions successful_argument_was_moved_or_excused.
 
 (* and conversely: any sequence of single-argument runs is a run of the list *)
 Theorem single_runs_compose : forall o ps t out, each_alone o ps t out -> run_of (trash_each ps o) t out.
